@@ -1,5 +1,6 @@
 SPECIFICATION SpecL
 CONSTANTS MaxQ = 255
+  OtherBlowups <- AllBlowups  OtherGrindings <- SomeGrindings
   Blowups <- AllBlowups  Exts <- AllExts  Grindings <- AllGrindings  FieldBits <- AllFieldBits  CRs <- AllCRs
 INVARIANT EmitL
 CHECK_DEADLOCK FALSE
